@@ -6,6 +6,8 @@ pub use super::convert::verif::{
     stacking_probe_map, stacking_probe_synth, StackProbe, StackProbeObject, StackSynthKind,
 };
 
+pub use super::difficulty::verif::{skill_probe, SkillProbe, SkillProbeDiff, SkillProbeRaw};
+
 use super::{
     attributes::OsuDifficultyAttributes,
     convert::convert_objects,
